@@ -4,6 +4,9 @@ mod checks_e2;
 mod e1;
 mod e2;
 mod e4;
+mod e5;
+mod c14;
+mod checks_e5;
 mod http;
 mod checks_e4;
 mod e6;
@@ -49,6 +52,21 @@ fn main() {
                 "C09" => checks_e1::run("C09", &tier, seed),
                 "C12" => e6::run(&tier, seed),
                 "C13" => checks_e4::run("C13", &tier, seed),
+                "C14" => checks_e5::run(
+                    checks_e5::Plan {
+                        prop: "C14",
+                        level: "exploration",
+                        rule: "cases on a real serve process: pre-existing history (incl. an earlier instance of the same handler name with its registration traffic and outputs), resume in {head, tail, after-id}, bursts of 10-300 frames from 1-6 concurrent writers while the closure sleeps, foreign-context noise, ephemeral frames, a second handler whose outputs the first must see, optional pulse; the instrumented closure returns {seen: frame.id, n: $env.n, cfg: $env.CFG}; the list of meta.frame_id over its outputs must equal the frames of its context after the resume point (own outputs and old registration traffic excluded) exactly once and in order, n must count 1,2,3.. and cfg must be visible; non-trivial = case with >=10 checked invocations that reached its sentinel; distinct by case shape",
+                        quick: 32,
+                        thorough: 300,
+                        par: 8,
+                        assumptions: vec!["the monitor follower (all contexts, from the beginning, drained eagerly) records the global frame log; C02/C03 are assumed for it and checked separately", "bursts stay below the 1024+100 frame buffers (beyond that the stream legitimately ends, C11)"],
+                        required: vec!["handler_invocations_checked"],
+                    },
+                    &tier,
+                    seed,
+                    |s, _| c14::run_case(s),
+                ),
                 "C02" => checks_e2::run("C02", &tier, seed),
                 "C03" => checks_e2::run("C03", &tier, seed),
                 "C11" => checks_e2::run("C11", &tier, seed),
